@@ -21,7 +21,7 @@ def run(chk):
     q = Rat.atom('q')
     x0 = ax_atom('x', 0)
     xn = ax_atom('x', Rat.atom('n_x') - 1)
-    base = run_spline(lib, 'No', 'inside')
+    base = run_spline(lib, 'Yes', 'inside')
     if not chk.ob('R7.2', "reference kernel (in range) extracted", base.kind == 'ok' and len(base.m.writes) == 1, span, 'reference'):
         return
     f_in = base.m.writes[0][1]
